@@ -24,7 +24,7 @@ use crate::{
         ed25519::Keypair,
         noise::{self, NoiseSocket},
     },
-    error::{Error, NegotiationError, SubstreamError},
+    error::{NegotiationError, SubstreamError},
     multistream_select::{dialer_select_proto, listener_select_proto, Negotiated, Version},
     protocol::{Direction, Permit, ProtocolCommand, ProtocolSet, SubstreamKeepAlive},
     substream,
@@ -476,7 +476,14 @@ impl WebSocketConnection {
                     Some(Ok(stream)) => {
                         let substream = self.protocol_set.next_substream_id();
                         let protocols = self.protocol_set.protocols_with_keep_alives();
-                        let permit = self.protocol_set.try_get_permit().ok_or(Error::ConnectionClosed)?;
+                        let Some(permit) = self.protocol_set.try_get_permit() else {
+                            // No protocol holds the connection open anymore: close it the regular
+                            // way so that the protocols and the manager are told.
+                            tracing::debug!(target: LOG_TARGET, peer = ?self.peer, "connection no longer kept open");
+                            self.protocol_set.report_connection_closed(self.peer, self.connection_id).await?;
+
+                            return Ok(())
+                        };
                         let substream_open_timeout = self.substream_open_timeout;
 
                         self.pending_substreams.push(Box::pin(async move {
@@ -536,9 +543,11 @@ impl WebSocketConnection {
                             };
 
                             if let (Some(protocol), Some(substream_id)) = (protocol, substream_id) {
-                                self.protocol_set
+                                // A protocol that has shut down cannot be told; that must not
+                                // take the connection down for the other protocols.
+                                let _ = self.protocol_set
                                     .report_substream_open_failure(protocol, substream_id, error)
-                                    .await?;
+                                    .await;
                             }
                         }
                         Ok(substream) => {
@@ -558,13 +567,15 @@ impl WebSocketConnection {
                                 self.protocol_set.protocol_codec(&protocol)
                             );
 
-                            self.protocol_set.report_substream_open(
+                            // A protocol that has shut down cannot receive the substream (it is
+                            // dropped); that must not take the connection down for the others.
+                            let _ = self.protocol_set.report_substream_open(
                                 self.peer,
                                 protocol,
                                 direction,
                                 substream,
                                 opening_permit,
-                            ).await?;
+                            ).await;
                         }
                     }
                 }
